@@ -306,9 +306,10 @@ class CallbacksExecutor:
         )
 
     async def async_all(self, *args, **kwargs):
-        coros = [condition(*args, **kwargs) for condition in self]
-        for coro in asyncio.as_completed(coros):
-            if not await coro:
+        # like ``all``: one condition after the other, stop at the first that fails; every coroutine that is
+        # started is awaited to completion
+        for condition in self:
+            if not await condition(*args, **kwargs):
                 return False
         return True
 
